@@ -424,7 +424,7 @@ def explore_server(acc, single, init_ids, depth):
             bad('other-object-affected', 'an untouched server context now hosts %r' % (by.slaves(),))
         # registered map must be the model
         if not single:
-            reg = dict((k, names.get(id(v), '?')) for k, v in sc._slaves.items())
+            reg = dict((k, names.get(id(v), '?')) for k, v in (sc._slaves.items() if hasattr(sc, '_slaves') else list(sc)))
             if reg != model_after:
                 bad('map-differs', 'registered %r, expected %r' % (sorted(reg.items()), sorted(model_after.items())))
 
